@@ -1,0 +1,25 @@
+//go:build verif
+
+// Contracts checked by /verif/gvc (contract-based deductive verification).
+// This file contains comments only; it is compiled only under the "verif" build tag.
+
+package queue
+
+// Interface contract of queue.Store as seen by the broker core. $adds counts the Add calls on a store
+// ("enqueues"). An implementation may touch anything it owns and call back into the notifier, so callers
+// learn nothing else about the heap after a call (modifies heap); what a caller hands to Add is stated by
+// the caller as call-site assertions.
+
+//@ ghost field (Store).adds int
+
+//@ func (Store).Add
+//@ params q, elem
+//@ requires elem != nil
+//@ modifies heap, ghost(q.$adds)
+//@ ensures q.$adds == old(q.$adds) + 1
+
+// ElemExpiry: an element is expired iff it has an expiry time and now is after it.
+//@ func ElemExpiry
+//@ props C12 C10
+//@ requires elem != nil
+//@ ensures [C12] result == (elem.Expiry != 0 && now > elem.Expiry)
